@@ -135,4 +135,21 @@ def freqBands (B : Band) : Nat → List Nat → List Band
 def freqPieces (cls : Nat) (L : Ledger) (B : Band) (off : Nat) (lens : List Nat) : List Piece :=
   (freqBands B off lens).map (fun b => { cls := cls, led := L, band := some b })
 
+/-- how the `axis` argument is written: by name, or as a (possibly negative) integer -/
+inductive AxisArg | name (s : String) | idx (a : Int)
+
+/-- `concatenate`'s reading of the axis argument for signals of rank `ndim` whose frequency axis
+exists iff `radio`: names first, then integers normalised the NumPy way (negative counts from the
+end); `none` = NumPy's AxisError / the TypeError for 'freq' on a non-radio signal -/
+def axisOf (ndim : Nat) (radio : Bool) : AxisArg → Option Axis
+  | .name "time" => some .time
+  | .name "freq" => if radio then some .freq else none
+  | .name _ => none
+  | .idx a =>
+    let b := if a < 0 then a + ndim else a
+    if b < 0 ∨ (ndim : Int) ≤ b then none
+    else if b = 0 then some .time
+    else if b = 1 ∧ radio then some .freq
+    else some .other
+
 end Pb.Concat
